@@ -1,5 +1,6 @@
 import SkgVerif.Lemmas.Scale
 import SkgVerif.Lemmas.Relabel
+import SkgVerif.Lemmas.CressieReal
 /-!
 # C10 — the experimental variogram has the invariances of its definition
 
@@ -80,6 +81,14 @@ theorem C10_scale_coords (s : Rat) (hs : 0 < s) (nl : ℕ) (ds : List Rat) (rati
   refine ⟨hm, ?_, ?_, fun edges d => groupLoop_scale s hs edges d⟩
   · rw [hm, e, evenEdges_scale]
   · rw [hm, e, uniformEdges_scale nl s hs]
+
+/-- Cressie-Hawkins (needs square roots: over ℝ, on the definition generated from
+`estimators.py`): order-free, and scaling the differences by `|k|` scales it by `k²` -/
+theorem C10_cressie {l₁ l₂ : List ℝ} (h : l₁.Perm l₂) (k : ℝ) (xs : List ℝ) :
+    Gen.cressieGenR l₁ = Gen.cressieGenR l₂ ∧
+    Gen.cressieGenR (xs.map (|k| * ·)) = k ^ 2 * Gen.cressieGenR xs := by
+  refine ⟨cressie_perm h, ?_⟩
+  rw [cressie_scale |k| (abs_nonneg k), sq_abs]
 
 /-- rigid motions of the plane (translation, rotation by a rational rotation matrix, reflection,
 axis swap) preserve squared Euclidean distances, hence the whole distance vector -/
